@@ -137,12 +137,16 @@ def returns_of(fi):
     return [r for r in fi.returns()]
 
 
-def enclosing_ifs(fi, node):
-    """[(if_node, branch)] from outermost to innermost; branch is 'body' or 'orelse'."""
+def enclosing_ifs(fi, node, ifexp=False):
+    """[(if_node, branch)] from outermost to innermost; branch is 'body' or 'orelse' (with ifexp=True conditional expressions
+    `a if t else b` count as well: only .test is uniform across the two node kinds)."""
     out = []
     child = node
     for a in fi.ancestors(node):
-        if isinstance(a, ast.If):
+        if ifexp and isinstance(a, ast.IfExp):
+            br = 'body' if (child is a.body or _contains(a.body, child)) else ('orelse' if (child is a.orelse or _contains(a.orelse, child)) else 'test')
+            out.append((a, br))
+        elif isinstance(a, ast.If):
             br = 'body' if any(child is s or _contains(s, child) for s in a.body) else (
                 'orelse' if any(child is s or _contains(s, child) for s in a.orelse) else 'test')
             out.append((a, br))
